@@ -276,3 +276,256 @@ Proof. intros H. unfold last_push. rewrite skipn_length. lia. Qed.
 
 Lemma before_last_app g : before_last_push g ++ last_push g = out g.
 Proof. unfold before_last_push, last_push. apply firstn_skipn. Qed.
+
+Lemma stA_snd Y : snd (snd (R Y)) = stA Y.
+Proof. reflexivity. Qed.
+
+(** one push preserves the invariant *)
+Lemma push_inv T span g Y prev mg it :
+  Inv g Y prev mg ->
+  item_ok T (snd (R Y)) prev mg it = true ->
+  Inv (push T span g it) (Y ++ canon_item it) (next_prev it) (next_mg (snd (R Y)) it).
+Proof.
+  intros [Irun Iprev Ilen Img] Hok.
+  unfold item_ok in Hok. rewrite stA_snd in Hok.
+  assert (Est : stA Y = stA (out g)) by (symmetry; apply stA_eq; exact Irun).
+  unfold push, canon_item, next_prev, next_mg. rewrite stA_snd.
+  destruct it as [m s]. cbn [imode itext] in *.
+  destruct m as [|p|  |n| | ].
+  - (* MStr *)
+    destruct s as [|c s']; [discriminate Hok|].
+    apply andb_true_iff in Hok as [Hc Hj0]. rewrite Est in Hc, Hj0.
+    destruct (push_str_shape T span g c s') as [sep [Hs [Ho [Hl Hn]]]].
+    assert (Hj : sep = [] -> junction_ok (stA (out g)) c = true).
+    { intros E. specialize (Hn E). apply orb_true_iff in Hj0 as [J|J]; [exact J|].
+      destruct (last_opt prev) as [l|] eqn:El; [|discriminate J].
+      assert (Hp : prev <> []) by (intros ->; discriminate El).
+      destruct (Iprev Hp) as [body [Hb _]].
+      unfold needs_space in Hn. rewrite Hb, (last_opt_app body prev Hp), El in Hn. congruence. }
+    destruct (sep_push g _ sep c s' Hc Hs Hj Ho Hl) as [A [B [C [D E]]]].
+    constructor.
+    + rewrite A. apply R_app_eq. exact Irun.
+    + intros _. exact B.
+    + exact C.
+    + intros _. split; assumption.
+  - (* MBreak *)
+    destruct s as [|c s']; [discriminate Hok|].
+    apply andb_true_iff in Hok as [Hc Hj0]. rewrite Est in Hc, Hj0.
+    destruct (push_break_shape T span g p (c :: s')) as [sep [Hs [Ho [Hl Hn]]]].
+    assert (Hj : sep = [] -> junction_ok (stA (out g)) c = true).
+    { intros E. specialize (Hn E). apply orb_true_iff in Hj0 as [J|J]; [exact J|].
+      assert (Hp : prev <> []) by (intros ->; discriminate J).
+      destruct (Iprev Hp) as [body [Hb Hl']].
+      destruct (last_push_split g body prev Hb Hl') as [Lp _]. congruence. }
+    destruct (sep_push g _ sep c s' Hc Hs Hj Ho Hl) as [A [B [C [D E]]]].
+    constructor.
+    + rewrite A. apply R_app_eq. exact Irun.
+    + intros _. exact B.
+    + exact C.
+    + intros _. split; assumption.
+  - (* MRaw *)
+    constructor.
+    + cbn [raw_push out]. apply R_app_eq. exact Irun.
+    + intros Hp. exists (out g). cbn [raw_push out lastlen]. split; reflexivity.
+    + cbn [raw_push out lastlen]. rewrite app_length. lia.
+    + intros Hm. apply andb_true_iff in Hm as [Hc Hne]. rewrite Est in Hc.
+      destruct s as [|c s']; [discriminate Hne|].
+      rewrite Est, Hc in Hok. cbn [negb orb] in Hok.
+      assert (Hsep : is_sep []) by (left; reflexivity).
+      destruct (sep_push g (raw_push g (c :: s')) [] c s' Hc Hsep (fun _ => Hok) eq_refl eq_refl)
+        as [_ [_ [_ [D E]]]].
+      split; assumption.
+  - (* MNlRaw *)
+    destruct s as [|c s']; [discriminate Hok|].
+    apply andb_true_iff in Hok as [Hc Hj]. rewrite Est in Hc, Hj.
+    destruct (nlraw_shape span g n (c :: s')) as [sep [Hs [Ho Hl]]].
+    assert (Hs' : is_sep sep) by (destruct Hs as [->| ->]; [left|right; right]; reflexivity).
+    destruct (sep_push g _ sep c s' Hc Hs' (fun _ => Hj) Ho Hl) as [A [B [C [D E]]]].
+    constructor.
+    + rewrite A. cbn [app]. rewrite <- (R_junction (out g) c s' Hc Hj). apply R_app_eq. exact Irun.
+    + intros _. exact B.
+    + exact C.
+    + intros _. split; assumption.
+  - (* MMerge *)
+    apply andb_true_iff in Hok as [Hok Hm]. apply andb_true_iff in Hok as [Ht Hc].
+    apply bytes_eqb_eq in Ht. subst s.
+    rewrite Est in Hc. subst mg.
+    destruct (Img eq_refl) as [Mc Mr].
+    unfold merge_char. destruct (fits span g 1).
+    + assert (Hsep : is_sep []) by (left; reflexivity).
+      destruct (sep_push g (raw_push g [40]) [] 40 [] Hc Hsep (fun _ => clean_junction_lparen _ Hc) eq_refl eq_refl)
+        as [_ [_ [C [D E]]]].
+      constructor.
+      * cbn [raw_push out]. apply R_app_eq. exact Irun.
+      * intros F; congruence.
+      * exact C.
+      * intros _. split; assumption.
+    + set (B := strip_trailing_spaces (before_last_push g)) in *.
+      set (lp := last_push g) in *.
+      pose proof (length_last_push g Ilen) as Llp. fold lp in Llp.
+      constructor; cbn [out lastlen].
+      * replace (B ++ [10] ++ lp ++ [40]) with ((B ++ [10] ++ lp) ++ [40]) by (rewrite <- !app_assoc; reflexivity).
+        rewrite (R_app_eq _ _ [40] Mr). apply R_app_eq. exact Irun.
+      * intros F; congruence.
+      * rewrite !app_length. cbn [List.length]. lia.
+      * intros _.
+        assert (Ho : out {| out := B ++ [10] ++ lp ++ [40]; col := N.of_nat (S (lastlen g)); lastlen := S (lastlen g) |}
+                     = (B ++ [10]) ++ (lp ++ [40])) by (cbn [out]; rewrite <- !app_assoc; reflexivity).
+        assert (Hl : lastlen {| out := B ++ [10] ++ lp ++ [40]; col := N.of_nat (S (lastlen g)); lastlen := S (lastlen g) |}
+                     = List.length (lp ++ [40])) by (cbn [lastlen]; rewrite app_length; cbn [List.length]; lia).
+        destruct (last_push_split _ _ _ Ho Hl) as [Lp Bp]. rewrite Lp, Bp.
+        rewrite strip_app_other by reflexivity.
+        split; [rewrite stA_ws; auto using ws10|].
+        cbn [out]. rewrite <- !app_assoc.
+        apply (R_newline_twice B (lp ++ [40]) Mc).
+  - (* MSpace *)
+    constructor.
+    + cbn [space out]. apply R_app_eq. exact Irun.
+    + intros F; congruence.
+    + cbn [space out lastlen]. rewrite app_length. lia.
+    + intros F; discriminate F.
+Qed.
+
+Lemma run_snd_app Y z : snd (run (snd (R Y)) z) = snd (R (Y ++ z)).
+Proof.
+  rewrite R_app. destruct (R Y) as [o k]. cbn [snd]. destruct (run k z) as [o2 k2]. reflexivity.
+Qed.
+
+Lemma stream_inv T span items : forall g Y prev mg,
+  Inv g Y prev mg ->
+  stream_ok_from T (snd (R Y)) prev mg items = true ->
+  R (out (fold_left (push T span) items g)) = R (Y ++ canon items).
+Proof.
+  induction items as [|it rest IH]; intros g Y prev mg HI Hok.
+  - cbn [fold_left canon flat_map]. rewrite app_nil_r. exact (inv_run _ _ _ _ HI).
+  - cbn [stream_ok_from] in Hok. apply andb_true_iff in Hok as [H1 H2].
+    cbn [fold_left]. unfold canon. cbn [flat_map]. fold (canon rest).
+    rewrite app_assoc.
+    apply (IH _ _ (next_prev it) (next_mg (snd (R Y)) it)).
+    + exact (push_inv T span g Y prev mg it HI H1).
+    + rewrite <- run_snd_app. exact H2.
+Qed.
+
+Lemma Inv_init : Inv gen0 [] [] false.
+Proof.
+  constructor.
+  - reflexivity.
+  - intros H; congruence.
+  - cbn. lia.
+  - intros H; discriminate H.
+Qed.
+
+(** THE AUTOMATON NEVER FUSES TOKENS: whenever every junction of the push list is safe under
+    the table ([stream_ok], decidable), the text written at ANY column span lexes exactly as
+    the canonical rendering of the pushes (a new line at every place a separator is allowed). *)
+Theorem no_fusion_stream : forall T span items,
+  stream_ok T items = true ->
+  lex_all (emit T span items) = lex_all (canon items)
+  /\ lex (emit T span items) = lex (canon items).
+Proof.
+  intros T span items H.
+  assert (E : R (emit T span items) = R (canon items)).
+  { unfold emit, emit_gen. apply (stream_inv T span items gen0 [] [] false Inv_init). exact H. }
+  assert (L : lex_all (emit T span items) = lex_all (canon items)).
+  { unfold lex_all. unfold R in E. rewrite E. reflexivity. }
+  split; [exact L|]. unfold lex. rewrite L. reflexivity.
+Qed.
+
+(** * from the finite condition on the tables to every push list of the adjacency universe *)
+Lemma In_range128 c : (c <? 128) = true -> In c range128.
+Proof.
+  intros H. apply N.ltb_lt in H. unfold range128.
+  apply in_map_iff. exists (N.to_nat c). split; [apply N2Nat.id|].
+  apply in_seq. lia.
+Qed.
+
+Lemma In_reps st : clean st = true -> st <> LStart -> In (rep st) reps.
+Proof.
+  intros Hc Hs.
+  destruct st as [|racc|ph racc|p|n|q esc racc|n cl racc|esc racc|racc|n racc|racc|n cl racc|];
+    try discriminate Hc; try congruence.
+  - cbn. auto.
+  - destruct ph; cbn; auto.
+  - destruct p; try discriminate Hc; cbn; auto 20.
+Qed.
+
+Lemma rep_facts st :
+  (forall c, junction_ok (rep st) c = junction_ok st c)
+  /\ (forall l, consistent (rep st) l = consistent st l)
+  /\ (forall c, excluded_str (rep st) c = excluded_str st c)
+  /\ (forall f, first_consistent (rep st) f = first_consistent st f).
+Proof.
+  destruct st as [|racc|ph racc|p|n|q esc racc|n cl racc|esc racc|racc|n racc|racc|n cl racc|];
+    repeat split; intros; try reflexivity; try (destruct ph; reflexivity).
+Qed.
+
+Lemma is_start_true st : is_start st = true -> st = LStart.
+Proof. destruct st; try discriminate; reflexivity. Qed.
+
+Lemma is_start_false st : is_start st = false -> st <> LStart.
+Proof. destruct st; try discriminate; congruence. Qed.
+
+Lemma adj_to_item T k prev mg it :
+  spacing_ok T = true -> adj_ok k prev mg it = true -> item_ok T k prev mg it = true.
+Proof.
+  intros Hsp Ha. unfold spacing_ok in Hsp. apply andb_true_iff in Hsp as [Hstr Hbrk].
+  unfold adj_ok in Ha. unfold item_ok. destruct k as [stk st]. cbn [snd] in *.
+  destruct (rep_facts st) as [Rj [Rc [Re Rf]]].
+  destruct (imode it) as [|p|  |n| | ]; try exact Ha.
+  - (* MStr *)
+    destruct (itext it) as [|c s']; [exact Ha|].
+    apply andb_true_iff in Ha as [Hc Ha]. rewrite Hc. cbn [andb].
+    destruct (is_start st) eqn:Es.
+    + apply is_start_true in Es. subst st. reflexivity.
+    + apply is_start_false in Es. cbn [orb] in Ha.
+      destruct (last_opt prev) as [l|]; [|discriminate Ha].
+      apply andb_true_iff in Ha as [Ha Hx]. apply andb_true_iff in Ha as [Ha Hc128].
+      apply andb_true_iff in Ha as [Hcons Hl128].
+      unfold spacing_ok_str in Hstr.
+      rewrite forallb_forall in Hstr. specialize (Hstr _ (In_reps st Hc Es)).
+      rewrite forallb_forall in Hstr. specialize (Hstr _ (In_range128 l Hl128)).
+      rewrite forallb_forall in Hstr. specialize (Hstr _ (In_range128 c Hc128)).
+      rewrite Rj, Rc, Re, Hcons, Hx in Hstr. exact Hstr.
+  - (* MBreak *)
+    destruct (itext it) as [|c s']; [exact Ha|].
+    apply andb_true_iff in Ha as [Ha Hrest]. apply andb_true_iff in Ha as [Hpc Hc].
+    apply N.eqb_eq in Hpc. subst c. rewrite Hc. cbn [andb].
+    destruct (is_start st) eqn:Es.
+    + apply is_start_true in Es. subst st. reflexivity.
+    + apply is_start_false in Es. cbn [orb] in Hrest.
+      destruct prev as [|f prev']; [discriminate Hrest|].
+      destruct (last_opt (f :: prev')) as [l|] eqn:El; [|discriminate Hrest].
+      apply andb_true_iff in Hrest as [Ha Hx]. apply andb_true_iff in Ha as [Ha Hf128].
+      apply andb_true_iff in Ha as [Ha Hl128]. apply andb_true_iff in Ha as [Hcons Hfc].
+      unfold spacing_ok_brk in Hbrk.
+      assert (Hp : In p all_preds) by (destruct p; cbn; auto 10).
+      rewrite forallb_forall in Hbrk. specialize (Hbrk _ Hp).
+      rewrite forallb_forall in Hbrk. specialize (Hbrk _ (In_reps st Hc Es)).
+      rewrite forallb_forall in Hbrk. specialize (Hbrk _ (In_range128 l Hl128)).
+      unfold excluded_brk in *. rewrite Rj, Rc, Re, Hcons, Hx in Hbrk. cbn [andb negb implb] in Hbrk.
+      apply orb_true_iff in Hbrk as [J|J]; [rewrite J; reflexivity|].
+      rewrite forallb_forall in J. specialize (J _ (In_range128 f Hf128)).
+      rewrite Rf, Hfc in J. cbn [implb] in J.
+      unfold pred_holds. rewrite El, J. apply orb_true_r.
+Qed.
+
+Lemma adjacency_to_stream T : spacing_ok T = true ->
+  forall items k prev mg,
+  adjacency_ok_from k prev mg items = true -> stream_ok_from T k prev mg items = true.
+Proof.
+  intros Hsp. induction items as [|it rest IH]; intros k prev mg H; [reflexivity|].
+  cbn [adjacency_ok_from stream_ok_from] in *. apply andb_true_iff in H as [H1 H2].
+  rewrite (adj_to_item T k prev mg it Hsp H1). cbn [andb]. apply IH. exact H2.
+Qed.
+
+(** NO FUSION.  For every table satisfying the decidable condition [spacing_ok], for every
+    push list inside the adjacency universe and every column span, the text written by the
+    automaton lexes exactly as the canonical rendering of the pushes. *)
+Theorem no_fusion : forall T, spacing_ok T = true ->
+  forall span items, adjacency_ok items = true ->
+  lex (emit T span items) = lex (canon items).
+Proof.
+  intros T Hsp span items Ha.
+  apply (no_fusion_stream T span items).
+  unfold stream_ok. apply adjacency_to_stream; assumption.
+Qed.
